@@ -134,7 +134,7 @@ Lemma tt2_nth dq N o (M : list (list Cc)) j j' : j < dq ^ N -> j' < dq ^ N ->
   nth j' (nth j (tt2 dc dq N o M) []) dc = nth (tt_src dq N o j') (nth (tt_src dq N o j) M []) dc.
 Proof. intros. unfold tt2. rewrite build_nth by auto. rewrite build_nth by auto. reflexivity. Qed.
 Lemma tt1_nth dq N o (v : list Rr) j : j < dq ^ N -> nth j (tt1 dr dq N o v) dr = nth (tt_src dq N o j) v dr.
-Proof. intros. unfold tt1. apply build_nth; auto. Qed.
+Proof. intros. unfold tt1. rewrite build_nth by auto. reflexivity. Qed.
 Lemma tt2_length dq N o (M : list (list Cc)) : length (tt2 dc dq N o M) = dq ^ N.
 Proof. apply build_len. Qed.
 Lemma tt1_length dq N o (v : list Rr) : length (tt1 dr dq N o v) = dq ^ N.
@@ -186,10 +186,10 @@ End Entries.
 Lemma remap_pauli_length N o : length (remap_pauli N o) = 4 ^ N.
 Proof. apply build_len. Qed.
 Lemma remap_pauli_nth N o k : k < 4 ^ N -> nth k (remap_pauli N o) 0 = dperm 4 N o k.
-Proof. intros. unfold remap_pauli. apply build_nth; auto. Qed.
+Proof. intros. unfold remap_pauli. rewrite build_nth by auto. reflexivity. Qed.
 Lemma remap_pauli_perm N o : is_perm N o -> is_perm (4 ^ N) (remap_pauli N o).
 Proof.
-  intros H. unfold is_perm, remap_pauli, build. apply bij_on_perm. apply dperm_bij; auto. lia.
+  intros H. unfold is_perm, remap_pauli, build. apply bij_on_perm. apply dperm_bij; auto.
 Qed.
 
 (* ---------- identifiers ---------- *)
